@@ -34,7 +34,7 @@ type fault struct {
 type params struct {
 	Stream []decl  `json:"stream"`
 	Faults []fault `json:"faults"`
-	Origin string  `json:"origin"` // synthetic | sweep
+	Origin string  `json:"origin"` // synthetic | sweep | real:<program/file/target>
 }
 
 type c19 struct{}
@@ -42,10 +42,17 @@ type c19 struct{}
 func (c19) ID() string { return "C19" }
 
 func (c19) Meta(env *kernel.Env) kernel.Meta {
+	conflicts := map[string]int{}
+	for _, name := range realStreamNames(env) {
+		if _, n := withoutConflicts(realStreams(env)[name]); n > 0 {
+			conflicts[name] = n
+		}
+	}
 	return kernel.Meta{
+		Extra: map[string]any{"real_streams": len(realStreamNames(env)), "real_stream_declarations_outside_precondition": conflicts},
 		Rule: "a run = one declaration stream (IDs from a small collision-prone alphabet, content a function of the ID, random priorities, length 0-14, or a systematic sweep of all short streams) delivered once undisturbed and once per generated fault sequence (shuffle, adjacent swap, block reversal, rotation, duplication and compositions); distinct = distinct (stream, fault sequence) pairs; non-trivial = the stream has >= 2 distinct IDs and the delivered order differs from the supplied one or contains a duplicate",
-		Real: []string{"generator.WriteDeclarations (current tree)"},
-		Stub: []string{"producer: synthetic declaration streams (the real generators' streams are exercised under C07)"},
+		Real: []string{"generator.WriteDeclarations (current tree)", "for one run in 16 the producer too: the declaration list a real generator (unions, sqlcrud, randdata, sql, typescript, dart) emits for a corpus program"},
+		Stub: []string{"producer of the other runs: synthetic declaration streams"},
 		Assumptions: []string{
 			"precondition of the property: equal IDs carry equal content (streams are built that way)",
 			"an ID supplied both with and without priority may be placed in either group, but the choice must not depend on delivery order",
@@ -93,6 +100,12 @@ func (c19) Generate(env *kernel.Env, r *kernel.Rand, index int) any {
 			id := ids[d%3]
 			p.Stream = append(p.Stream, decl{ID: id, Content: "decl " + id, Prio: d >= 3})
 		}
+	} else if names := realStreamNames(env); index%16 == 5 && len(names) > 0 {
+		// the declaration list a real generator produced for a corpus program
+		name := names[r.Intn(len(names))]
+		st, _ := withoutConflicts(realStreams(env)[name])
+		p.Origin = "real:" + name
+		p.Stream = append([]decl(nil), st...)
 	} else {
 		p.Origin = "synthetic"
 		n := r.Intn(15)
@@ -327,7 +340,17 @@ func (c19) Execute(env *kernel.Env, raw json.RawMessage, ch *kernel.Choices) *ke
 	if len(byID) == 0 {
 		out.Probe("empty_stream")
 	}
-	out.Sample = map[string]any{"supplied": ids(p.Stream), "delivered": ids(delivered), "output": base}
+	if strings.HasPrefix(p.Origin, "real:") {
+		out.Probe("real_generator_stream")
+		out.Keys = append(out.Keys, "@realstream:"+p.Origin)
+	}
+	clip := func(s string) string {
+		if len(s) > 400 {
+			return s[:400] + "..."
+		}
+		return s
+	}
+	out.Sample = map[string]any{"origin": p.Origin, "supplied": clip(ids(p.Stream)), "delivered": clip(ids(delivered)), "output": clip(base)}
 	return out
 }
 
